@@ -618,7 +618,10 @@ func (p *parser) parseForOrForInStatement() ast.Statement {
 		p.comments.Unset()
 	}
 	p.expect(token.SEMICOLON)
-	initializer := &ast.SequenceExpression{Sequence: left}
+	var initializer ast.Expression
+	if len(left) > 0 {
+		initializer = &ast.SequenceExpression{Sequence: left}
+	}
 	forstatement := p.parseFor(initializer)
 	forstatement.For = idx
 	if p.mode&StoreComments != 0 {
